@@ -264,6 +264,9 @@ def pools(thorough: bool, seed: int) -> list[tuple[tuple[tuple[Any, ...], ...], 
     # the same class several times on the same addresses, and on shifted addresses
     for c in classes:
         out.append((((c, 0, 1, False), (c, 0, 1, False), (c, 1, 1, False)), False))
+    # devices whose address parameters are listen-only lists ([None, passive address]), next to plain ones
+    for j, c in enumerate(classes):
+        out.append((((c, j % 4, 1, "passive"), (c, (j + 1) % 4, 1, False), (classes[(j + 5) % len(classes)], j % 4, 1, "passive")), j % 2 == 0))
     # a Climate and its own ClimateMode both registered, next to every other class; strides 5/7/9 leave the mode with
     # addresses the Climate's own parameters do not use
     for j, c in enumerate(classes):
